@@ -155,6 +155,10 @@ def lookupByOffset (v : View) (symtab strtab reltab : Tab) (functionOffset local
       else lookupByOffset v symtab strtab reltab functionOffset localOffset k (ptr + 8)
     else some none
 
+/-- `cond && strcmp(name, lit) == 0`: the comparison is only made when `cond` holds -/
+def guardedEq (v : View) (cond : Bool) (off : Nat) (lit : Name) : Option Bool :=
+  if cond then v.cstrEq off lit else some false
+
 /-- what the section loops collect -/
 structure Secs where
   symtab : Option Tab := none
@@ -177,14 +181,14 @@ def codeSections (v : View) (h : Hdr) (namesOffset : Nat) : Nat → Nat → Secs
     if shType = SHT_SYMTAB then
       codeSections v h namesOffset k (i + 1) { s with symtab := some { off := shOffset, size := shSize } }
     else do
-      let isStrtab ← if shType = SHT_STRTAB then v.cstrEq (namesOffset + shName) dotStrtab else pure false
+      let isStrtab ← guardedEq v (shType == SHT_STRTAB) (namesOffset + shName) dotStrtab
       if isStrtab then
         if shSize = 0 then pure none else do
           let last ← v.u8 (shOffset + shSize - 1)
           if last ≠ 0 then pure none
           else codeSections v h namesOffset k (i + 1) { s with strtab := some { off := shOffset, size := shSize } }
       else do
-        let isText ← if shType ≠ SHT_NOBITS then v.cstrEq (namesOffset + shName) dotText else pure false
+        let isText ← guardedEq v (shType != SHT_NOBITS) (namesOffset + shName) dotText
         if isText then
           codeSections v h namesOffset k (i + 1) { s with textOff := shOffset, textSize := shSize, textIndex := some i }
         else codeSections v h namesOffset k (i + 1) s
@@ -228,14 +232,14 @@ def nameSections (v : View) (h : Hdr) (namesOffset : Nat) : Nat → Nat → Secs
     if shType = SHT_SYMTAB then
       nameSections v h namesOffset k (i + 1) { s with symtab := some { off := shOffset, size := shSize } }
     else do
-      let isStrtab ← if shType = SHT_STRTAB then v.cstrEq (namesOffset + shName) dotStrtab else pure false
+      let isStrtab ← guardedEq v (shType == SHT_STRTAB) (namesOffset + shName) dotStrtab
       if isStrtab then
         if shSize = 0 then pure none else do
           let last ← v.u8 (shOffset + shSize - 1)
           if last ≠ 0 then pure none
           else nameSections v h namesOffset k (i + 1) { s with strtab := some { off := shOffset, size := shSize } }
       else do
-        let isRel ← if shType = SHT_REL then v.cstrEq (namesOffset + shName) dotRelText else pure false
+        let isRel ← guardedEq v (shType == SHT_REL) (namesOffset + shName) dotRelText
         if isRel then
           nameSections v h namesOffset k (i + 1) { s with reltab := { off := shOffset, size := shSize } }
         else nameSections v h namesOffset k (i + 1) s
